@@ -64,6 +64,27 @@ fn setup(h: &mut H) -> (Keys, Value, Vec<Issue>, Vec<Pok>) {
                 }
             }
             if let Some(i) = holder(h, &k, n, &u, None, msgs.clone()) {
+                // the same commitment re-randomised by the holder to an opening randomness with LEADING ZERO bits
+                // (CL03Commitment is a public struct; a uniformly drawn r < 2^ln has them half of the time): the
+                // issuance proof must mask it like any other ln-bit secret
+                if u.len() == 1 || h.thorough {
+                    let r0 = field(&i.c, "randomness");
+                    let b = field(&k.pk, "b");
+                    for sh in [1u32, 200] {
+                        let r2 = Integer::from(&r0 >> sh);
+                        let delta = Integer::from(&r2 - &r0);
+                        let v2 = Integer::from(field(&i.c, "value") * powm(&b, &delta, &k.n_mod)) % &k.n_mod;
+                        let mut c2 = i.c.clone();
+                        c2["randomness"] = iv(&r2);
+                        c2["value"] = iv(&v2);
+                        let (z2, t2) = crate::ops::call(h, "cl.zkgen", vec![ivs(&i.msgs), c2.clone(), Value::Null, k.pk.clone(), ivs(&k.bases[..n]), Value::Null, uv(&u)], vec![]);
+                        if let Some(z2) = z2.ok().cloned() {
+                            let v = super::gen_issue::zkverify(h, &k.pk, &k.bases[..n].to_vec(), &z2, &c2["value"], None, None, &u);
+                            h.expect(v.is_true(), "C14.short_randomness", "an issuance proof for a commitment whose opening randomness has leading zero bits does not verify", &[h.last()]);
+                            issues.push(Issue { msgs: i.msgs.clone(), hidden: i.hidden.clone(), revealed_idx: i.revealed_idx.clone(), c: c2, ct: None, cpk: None, zk: z2, zk_tape: t2 });
+                        }
+                    }
+                }
                 let bt = boundary_tape(&i.zk_tape, false);
                 let (zb, tb) = crate::ops::call(
                     h,
@@ -144,9 +165,31 @@ pub fn c17(h: &mut H) {
         let free: Vec<&Integer> = tape.iter().enumerate().filter(|(i, (k, v))| k == "bits" && *v > 0 && !(i + 1 < tape.len() && tape[i + 1].0 == "prime")).map(|(_, (_, v))| v).collect();
         free.len() >= 2 && free.iter().all(|v| **v == pow2(v.significant_bits() - 1))
     };
-    let mut run = |h: &mut H, what: &str, proof: &Value, secrets: &[(String, Integer)], v_sig: Option<&Integer>, id: u64, real_randomness: bool| {
+    let mut run = |h: &mut H, what: &str, proof: &Value, secrets: &[(String, Integer)], v_sig: Option<&Integer>, id: u64, real_randomness: bool, public_values: &[(String, Integer)]| {
         let mut cs = Vec::new();
         commitments(proof, String::new(), &mut cs);
+        // (6) relations BETWEEN commitments: two commitments that share their randomness divide to g^x, which a
+        // recipient confirms for a guessed x with one exponentiation. All commitment values of the proof and the
+        // public ones that go with it (the commitment C of an issuance). (Boundary tapes give equal randomness by
+        // construction and are skipped.)
+        if real_randomness {
+            let mut vals: Vec<(String, Integer)> = cs.iter().map(|(p, v, _)| (p.clone(), v.clone())).collect();
+            vals.extend(public_values.iter().cloned());
+            let bases_all: Vec<Integer> = k.bases.iter().chain(gs.iter()).cloned().collect();
+            for (p1, v1) in &vals {
+                for (p2, v2) in &vals {
+                    if p1 == p2 || v1 == v2 { continue; }
+                    let inv = match v2.clone().invert(n) { Ok(i) => i, Err(_) => continue };
+                    let q = Integer::from(v1 * &inv) % n;
+                    for g in &bases_all {
+                        for (sn, x) in secrets.iter().take(4) {
+                            if *x == 0 { continue; }
+                            h.expect(pm(g, x, n) != q, "C17.commitment_relation", &format!("{}: {} / {} equals base^{}: the two commitments share their randomness and a guess of {} is confirmed with one exponentiation", what, p1, p2, sn, sn), &[id]);
+                        }
+                    }
+                }
+            }
+        }
         let mut lv = Vec::new();
         leaves(proof, String::new(), &mut lv);
         h.stat(&format!("C17.{}.commitments", what));
@@ -255,7 +298,7 @@ pub fn c17(h: &mut H) {
         secrets.push(("r".into(), field(&iss.c, "randomness")));
         let id = h.last();
         let real = !is_boundary(&iss.zk_tape);
-        run(h, "issuance", &iss.zk, &secrets, None, id, real);
+        run(h, "issuance", &iss.zk, &secrets, None, id, real, &[("C".to_string(), field(&iss.c, "value"))]);
         if real { tape_randomness(h, "C17.blinding_not_random", "issuance", &iss.zk_tape, id); }
     }
     for pk in &poks {
@@ -271,7 +314,7 @@ pub fn c17(h: &mut H) {
         let v = field(&pk.sig, "v");
         let id = h.last();
         let real = !is_boundary(&pk.tape);
-        run(h, "signature_proof", &pk.pok, &secrets, Some(&v), id, real);
+        run(h, "signature_proof", &pk.pok, &secrets, Some(&v), id, real, &[]);
         if real { tape_randomness(h, "C17.blinding_not_random", "signature_proof", &pk.tape, id); }
     }
 }
